@@ -98,6 +98,14 @@ reg(
     "DESIGN.md §3 C11",
 )
 
+reg(
+    "C19", "exploration",
+    "controlled-interleaving explorer on a virtual-time event loop with a gated embedding model; history with unique values judged against f(text)",
+    "The real BasicEmbeddingsIndex + cache_embeddings + Annoy run on a virtual-time asyncio loop; a gated fake model parks every encode_async; at every loop-idle point the driver picks the next logical event (request arrival, several arrivals in one iteration, hold timer, model return). 18.6k (thorough 118k) schedules: all small ones enumerated, larger sampled; 1-12 requests via _batch_get_embeddings / search / _get_embeddings, max_batch_size 1-5, holds 0/0.01/5 s, caches off / in_memory x {md5,hash} / filesystem x {md5,hash}, unique and duplicate/empty texts. Oracle: every vector == f(own text), list order kept, search query vector == f(query), at quiescence every request is done without exception; no-progress decided on a logical step budget.",
+    "trusts the virtual-time loop's idle detection (loop-native waiting only), f = sha256-derived vector; redis store and real providers' thread-pool paths are not explored",
+    "DESIGN.md §3 C19",
+)
+
 NOT_BUILT_REASON = "check not built yet in this revision (claimed by DESIGN.md; see §5 order of work)"
 
 
